@@ -65,7 +65,7 @@ class BatchEngine(Engine):
 
     # -- generation -------------------------------------------------------------
     def gen(self, g, prop, tier):
-        proj = BG.gen_project(g, tier)
+        proj = BG.gen_project(g, tier, bindings=True)
         cfg = BG.gen_config(g, proj, tier, patterns=True)
         scen = {'proj': proj, 'cfg': cfg, 'set_random': g.flip('setrnd', 4, 5), 'topo_random': g.flip('toporand', 4, 5)}
         if prop == 'C21' and len(proj['files']) >= 2 and g.flip('casecollide', 1, 12):
@@ -83,12 +83,12 @@ class BatchEngine(Engine):
                 scen['passes'].append({
                     'item_filter': g.pick('ifilter', ['proc', 'proc', 'proc+mod', 'item', 'proc+type']),
                     'reverse': g.flip('rev', 1, 3),
-                    'file_graph': g.flip('fg', 1, 3),
+                    'file_graph': g.flip('fg', 2, 5),
                     'process_ignored': g.flip('pign', 1, 3),
                     'plan': g.flip('plan', 1, 4),
                 })
                 # file-graph traversal with recursion into the modules and procedures of each file
-                scen['passes'][-1]['recurse'] = scen['passes'][-1]['file_graph'] and g.flip('recurse', 1, 2)
+                scen['passes'][-1]['recurse'] = scen['passes'][-1]['file_graph'] and g.flip('recurse', 2, 3)
             if len(scen['passes']) >= 2 and g.flip('edit', 1, 3):
                 # between two passes a transformation (without creates/renames flags) removes a plain call
                 cands = [(p, i) for p, P in proj['procs'].items() for i, c in enumerate(P['calls'])
@@ -115,8 +115,10 @@ class BatchEngine(Engine):
                 c = self.clone(s)
                 del c['proj']['procs'][p]['calls'][i]
                 yield c
-            for key in ('uses_var', 'uses_type', 'uses_param', 'calls_iface'):
+            for key in ('uses_var', 'uses_type', 'uses_param', 'calls_iface', 'calls_bound'):
                 for i in range(len(P.get(key, []))):
+                    if key == 'uses_type' and any([m, t] == P[key][i] for m, t, _ in P.get('calls_bound', [])):
+                        continue        # the declaration a type-bound call needs
                     c = self.clone(s)
                     del c['proj']['procs'][p][key][i]
                     yield c
@@ -341,7 +343,7 @@ class BatchEngine(Engine):
             kind = ref['nodes'][n]
             expcls = {'proc': ('ProcedureItem',), 'module': ('ModuleItem',), 'type': ('TypeDefItem',),
                       'external': ('ExternalItem',), 'external_mod': ('ExternalItem',),
-                      'interface': ('InterfaceItem',)}[kind]
+                      'interface': ('InterfaceItem',), 'binding': ('ProcedureBindingItem',)}[kind]
             if cls not in expcls:
                 run.violate('item-kind', f'{n} is a {cls}, expected {expcls[0]}')
 
@@ -432,7 +434,7 @@ class BatchEngine(Engine):
         reachable = {n: reach(n) for n in ref['nodes']}
         filters = {'proc': (ProcedureItem,), 'proc+mod': (ProcedureItem, ModuleItem), 'item': (Item,),
                    'proc+type': (ProcedureItem, TypeDefItem)}
-        kinds = {'proc': ('proc',), 'proc+mod': ('proc', 'module'), 'item': ('proc', 'module', 'type', 'interface'),
+        kinds = {'proc': ('proc',), 'proc+mod': ('proc', 'module'), 'item': ('proc', 'module', 'type', 'interface', 'binding'),
                  'proc+type': ('proc', 'type')}
         file_of = {}
         for f in proj['files']:
@@ -446,6 +448,10 @@ class BatchEngine(Engine):
                         file_of[BG.item_name(proj, pn)] = f['path'].lower()
                     for t in m['types']:
                         file_of[f'{name}#{t}'] = f['path'].lower()
+                    for b in m.get('bindings', []):
+                        file_of[f'{name}#{b["type"]}%{b["name"]}'] = f['path'].lower()
+                    for bp in m.get('bprocs', []):
+                        file_of[f'{name}#{bp}'] = f['path'].lower()
                     if m.get('iface'):
                         file_of[f'{name}#{m["iface"]["name"]}'] = f['path'].lower()
                         for ip in m['iface']['procs']:
@@ -684,6 +690,27 @@ class BatchEngine(Engine):
             if not excluded and gname not in tset:
                 run.violate('targets-missing', f'{tag}: {n} did not receive the generic interface {gname!r} it '
                                                f'calls in targets {sorted(tset)}')
+        if P.get('bound'):
+            allowed.add(P['bound'])
+            tn = f'{P["mod"]}#{P["bound"]}'
+            excluded = BG.matches_with_parents(tn, gdis) or BG.matches_with_parents(tn, c.get('disable')) or \
+                BG.matches_with_parents(tn, c.get('block'))
+            if not excluded and P['bound'] not in tset:
+                run.violate('targets-missing', f'{tag}: {n} did not receive the type {P["bound"]!r} of its passed-object '
+                                               f'argument in targets {sorted(tset)}')
+        for m, t, b in P.get('calls_bound', []):
+            var = f'tv{P["uses_type"].index([m, t])}%{b}'
+            allowed |= {var, m, t}
+            bn = f'{m}#{t}%{b}'
+            excluded = BG.matches_with_parents(bn, gdis) or BG.matches_with_parents(bn, c.get('disable')) or \
+                BG.matches_with_parents(bn, c.get('block'))
+            if excluded:
+                if var in tset:
+                    run.violate('targets-excluded', f'{tag}: {n} received target {var!r} although the binding is '
+                                                    f'disabled/blocked for this item')
+            elif var not in tset:
+                run.violate('targets-missing', f'{tag}: {n} did not receive the type-bound call {var!r} in targets '
+                                               f'{sorted(tset)}')
         if P['external']:
             allowed.add(P['external'])
         if P.get('ext_mod') is not None:
